@@ -48,8 +48,13 @@ theorem check_outcome_spec (fs : FS) (files : List (Name × Bytes)) :
     (runMain true fs files).1 = expected fs files := by
   simp only [runMain, if_true]; exact checkLoop_expected fs files
 
-/-- The check branch never writes: its effect log consists of reads only and the directory is
-returned unchanged.  (Without `--check` the same loop does write: see the example below.) -/
+/-- The check branch of the file loop never writes: its effect log consists of reads only and the
+directory is returned unchanged.  This is DEFINITIONAL for the loop (it restates how `checkLoop`
+mirrors the `if opt.check { … continue; }` branch; the contrast is the non-check branch below, whose
+log has `createDirAll`/`write`).  The substantive claim - that nothing else reached from `--check`
+(`Opts::build`, `WorldGenerator::generate` of the nine generator crates) writes either - is not a
+theorem: it is VALIDATED per run by the before/after snapshot of the whole work tree, the inventory
+of file-system write calls, and strace in the thorough tier. -/
 theorem check_never_writes (fs : FS) (files : List (Name × Bytes)) :
     (∀ e ∈ (runMain true fs files).2.1, ∃ n, e = Effect.read n) ∧ (runMain true fs files).2.2 = fs := by
   simp only [runMain, if_true, and_true]
